@@ -21,6 +21,7 @@ META = {
     "assumptions": [],
     "not_decided": "applicability of every delivered diff to the replica beyond the table rules of C05",
 }
+META["explanation"] += ' R06.6 lag => reset: the result of every receive is examined for `Lagged`, and every path from a Lagged edge passes the lag handler before the stream returns or receives again (a swallowed Lagged loses messages without a Reset).'
 
 SHRINKING = r"bin:(Div|Sub|Shr|Rem)|::(min|saturating_sub|checked_sub|wrapping_sub|div_ceil|checked_div|isqrt|ilog2|ilog10)$"
 
@@ -36,6 +37,7 @@ def run(ctx):
     else:
         r06_4(ctx, lag)
     r06_5(ctx)
+    r06_6(ctx)
     from . import groups
     groups.im_core(ctx)
 
@@ -306,3 +308,55 @@ def r06_5(ctx):
                 ctx.verdict(ok, "R06.5", f, "batch-catches-up", b.line_at(loc), "Some(batch) is yielded only on the Empty/Closed edge of try_recv",
                             "the batched stream yields its batch while more messages may be buffered (not on the Empty/Closed edge): an item does not bring the subscriber fully up to date")
     ctx.floor("R06.5", n, 1)
+
+
+RECV_SITE = r"broadcast::Receiver::<.*>::try_recv$|ReusableBoxRecvFuture::<.*>::poll$|broadcast::Receiver::<.*>::recv$"
+
+
+def r06_6(ctx):
+    """lag => reset: once a receive reported `Lagged`, the skipped messages are gone; every path from that edge must go
+    through the lag handler (which produces the Reset state) before the stream returns or receives again."""
+    F = ctx.facts
+    lag = find_lag_handler(F)
+    if lag is None:
+        return
+    n = 0
+    for f in F.find(crate=IM, name="poll_next"):
+        st = f.raw.get("self_ty") or ""
+        if f.raw.get("impl_trait") != "futures_core::Stream" or "VectorSubscriber" not in st:
+            continue
+        rfut = [g for g in F.find(crate=IM) if (g.raw.get("self_ty") or "").startswith("vector::subscriber::ReusableBoxRecvFuture<")]
+        b = inl(F, f, lag, *rfut)
+        lag_blks = [blk for blk, t in b.calls() if F.local_callee(f, t) is lag]
+        recv_blks = {blk for blk, t in b.calls(RECV_SITE)}
+        site_locs = {(blk, len(b.blocks[blk]["stmts"])): blk for blk in recv_blks}
+        examined = set()
+        for sblk in sorted(b.reachable()):
+            info = conds.switch_info(b, sblk)
+            if not info:
+                continue
+            for t, fs in info["edges"].items():
+                lf = [x for x in fs if x[0] == "variant" and x[2] == frozenset(["Lagged"])]
+                if not lf:
+                    continue
+                for x in lf:
+                    for c in find_all(x[1], lambda y: y[0] == "call" and y[4] in site_locs):
+                        examined.add(site_locs[c[4]])
+                r = b.reachable_from(t, avoid_blocks=lag_blks)
+                bad_ret = [x for x in r if b.term(x)["k"] == "return"]
+                bad_recv = [x for x in r if x in recv_blks]
+                where = b.line_at((t, 0))
+                if bad_ret or bad_recv:
+                    ctx.violated("R06.6", f, "lag=>reset", where,
+                                 "after a receive answered `Lagged` (bb%d) the stream can %s without going through the lag handler `%s`: the overwritten messages are skipped and no Reset resynchronises the subscriber" % (
+                                     sblk, "receive again (bb%d)" % bad_recv[0] if bad_recv else "return (bb%d)" % bad_ret[0], lag.name))
+                else:
+                    ctx.holds("R06.6", f, "lag=>reset", where, "every path from the Lagged edge (bb%d->bb%d) passes the lag handler (bb%s)" % (sblk, t, lag_blks))
+        for blk in sorted(recv_blks):
+            n += 1
+            if blk not in examined and blk in b.reachable():
+                ctx.violated("R06.6", f, "lag-distinguished", b.line_at((blk, 10 ** 6)),
+                             "the result of the receive at bb%d is never examined for `Lagged`: a lagging receive is treated like another outcome and the skipped messages are lost without a Reset" % blk)
+            elif blk in b.reachable():
+                ctx.holds("R06.6", f, "lag-distinguished", b.line_at((blk, 10 ** 6)), "the receive's error is examined for Lagged")
+    ctx.floor("R06.6", n, 3)
